@@ -1002,6 +1002,7 @@ package psatoken
 
 //@ func (*Evidence).doSign
 //@   property C03 C19 C02 C05
+//@   ensures[alg-refused] !specCoseAlg(signerAlg(signer)) ==> ret1 != nil
 //@   requires e != nil && e.message != nil && signer != nil && e.message.Headers.Protected != nil
 //@   ensures[fail] ret1 != nil ==> ret0 == nil && (e.message.Signature == old(e.message.Signature) || len(e.message.Signature) == 0)
 //@   ensures[ok] ret1 == nil ==> ret0 != nil && fresh(ret0) && len(e.message.Signature) > 0 && len(old(e.message.Signature)) == 0 && e.message.Payload != nil && hasAlg(mapVal(e.message.Headers.Protected)) && algOf(mapVal(e.message.Headers.Protected)) == signerAlg(signer) && bytesVal(ret0) == coseEnc(protOf(e.message), mapVal(e.message.Headers.Unprotected), bytesVal(e.message.Payload), bytesVal(e.message.Signature)) && sigOver(e.message) == tbs(protOf(e.message), 0, bytesVal(e.message.Payload)) && coseDecOK(bytesVal(ret0)) && !cosePayloadNil(bytesVal(ret0)) && cosePayload(bytesVal(ret0)) == bytesVal(e.message.Payload) && coseSig(bytesVal(ret0)) == bytesVal(e.message.Signature) && protId(coseRawProt(bytesVal(ret0)), coseProtMap(bytesVal(ret0))) == protOf(e.message) && coseProtMap(bytesVal(ret0)) == mapVal(e.message.Headers.Protected)
@@ -1011,6 +1012,8 @@ package psatoken
 //@ func (*Evidence).Sign
 //@   property C03 C19 C08 C05
 //@   requires e != nil && signer != nil && evInv(e)
+//@   ensures[alg-refused] !specCoseAlg(signerAlg(signer)) ==> ret0 == nil && ret1 != nil
+//@   ensures[no-claims] e.Claims == nil ==> ret0 == nil && ret1 != nil
 //@   ghostset bound(e) = true when ret1 == nil
 //@   ghostset signedAt(e) = old(heapVer()) when ret1 == nil
 //@   ensures[fresh-msg] e.message != nil && fresh(e.message)
@@ -1022,7 +1025,9 @@ package psatoken
 
 //@ func (*Evidence).ValidateAndSign
 //@   property C03 C19 C08 C05
-//@   requires e != nil && signer != nil && e.Claims != nil && evInv(e)
+//@   requires e != nil && signer != nil && evInv(e)
+//@   ensures[alg-refused] !specCoseAlg(signerAlg(signer)) ==> ret0 == nil && ret1 != nil
+//@   ensures[no-claims] e.Claims == nil ==> ret0 == nil && ret1 != nil
 //@   ghostset bound(e) = true when ret1 == nil
 //@   ghostset signedAt(e) = old(heapVer()) when ret1 == nil
 //@   ensures[gate] !claimsValid(e.Claims, old(heapVer())) ==> ret0 == nil && ret1 != nil
